@@ -72,10 +72,11 @@ class PatternToken(RegexpBaseToken):
     Parses excel pattern system
     ? - stands for single symbol
     * - stands for sequence of symbols
-    ~ - cancels pattern effect if placed before ? or * (cancels effect only for next symbol, but not for all)
+    ~ - cancels pattern effect if placed before ? or * (cancels effect only for next symbol, but not for all),
+        ~~ is the tilde itself
     Would be useful to recognize argument in function e.g =COUNTIFS(A3:B3; "???le") or =COUNTIFS(A4:B7; "a*")
     """
-    regexp = r'\"([^\"]*(?<![~])[?*]+[^\"]*)\"'
+    regexp = r'\"([^\"]*(?<![~])(?:~~)*[?*]+[^\"]*)\"'
 
 
 # TODO добавить условие для локализации
